@@ -42,9 +42,14 @@ def act_n(ctx, value):
 
 GR = {
     "plain": 'S: S "+" S | n | EMPTY;\nterminals\nn: ;\n',
+    # block comments are parsed by the LAYOUT sub-parser token by token, so
+    # an unterminated one makes the *sub-parser* raise in the middle of a
+    # parse of the main parser
     "layout": ('S: S "+" S | n;\n'
-               'LAYOUT: LI | LAYOUT LI | EMPTY;\nLI: WS | CM;\n'
-               'terminals\nn: ;\nWS: /\\s+/;\nCM: /\\/\\/.*/;\n'),
+               'LAYOUT: LI | LAYOUT LI | EMPTY;\nLI: WS | CM | BC;\n'
+               'BC: co NC cc | co cc;\n'
+               'terminals\nn: ;\nWS: /\\s+/;\nCM: /\\/\\/.*/;\n'
+               'co: "/*";\ncc: "*/";\nNC: /([^*]|\\*(?!\\/))+/;\n'),
     "named": 'S: l=S "+" r=T | t=T;\nT: n;\nterminals\nn: ;\n',
     # lexical overlap: the finish flags a table was built with matter
     # ("n!n": a token that spans a position where the user recognizer raises:
@@ -52,7 +57,7 @@ GR = {
     "overlap": 'S: S "+" S | n | "nn" | n n | "n!n";\nterminals\nn: ;\n',
 }
 PROBES = ["", "n", "n+n", "n +n", "+", "n+", "nn", "n+n+n", " n //c\n+n", "n+x+n",
-          "nn+n"]
+          "nn+n", "n /*c*/+n", "n /*+n"]
 ACTIONS = {"n": act_n}
 
 
@@ -87,9 +92,22 @@ def norm(x):
     return x
 
 
-def observe(p):
+def observe(p, rot=0):
+    """outcome of every probe, in the canonical order; the probes are *run*
+    starting with probe number rot, so that over the histories that end with
+    the same event every probe is the first parse after the history once"""
+    n = len(PROBES)
+    order = [(rot + i) % n for i in range(n)]
+    res = _observe(p, [PROBES[i] for i in order])
+    out = [None] * n
+    for i, r in zip(order, res):
+        out[i] = r
+    return out
+
+
+def _observe(p, probes):
     out = []
-    for s in PROBES:
+    for s in probes:
         try:
             with quiet():
                 r = p.parse(s)
@@ -123,7 +141,7 @@ EVENTS = ([("build", k) for k in KINDS] +
           [("failbuild", "conflicts"), ("failbuild", "action"),
            ("failbuild", "interrupted"),
            ("parse", "n+n"), ("parse", "n+"), ("parse", ""), ("parse", "+n+"),
-           ("parse", "n+x+n"),
+           ("parse", "n+x+n"), ("parse", "n +/*n"),
            ("parse-boom-action", "n+n"), ("parse-boom-recognizer", "n+!"),
            ("parse-boom-recognizer", "n!"), ("parse-boom-recognizer", "n!n"),
            ("from_string_ok",), ("from_string_bad_syntax",),
@@ -208,7 +226,7 @@ def grammar_state(g, live):
     ])
 
 
-def run_history(gname, hist):
+def run_history(gname, hist, rot=0):
     g = fresh_grammar(gname)
     live = []
     for ev in hist:
@@ -220,7 +238,7 @@ def run_history(gname, hist):
     bad = []
     for k, p in live:
         obs, td = oracle(gname, k)
-        if observe(p) != obs:
+        if observe(p, rot) != obs:
             bad.append(("live parser differs from a fresh one", k))
         if table_digest(p) != td:
             bad.append(("live parser's table differs from a fresh one", k))
@@ -286,7 +304,8 @@ def run_unit(u):
         if u["mod"] and idx % u["mod"][1] != u["mod"][0] % u["mod"][1]:
             continue
         hist = decode(idx, u["n"])
-        bad, gs = run_history(u["g"], hist)
+        bad, gs = run_history(u["g"], hist,
+                              (idx // len(EVENTS)) % len(PROBES))
         st["histories"] += 1
         st["transitions"] += len(hist)
         if gs:
